@@ -1,6 +1,7 @@
 import QmcProofs.Rvb
 import QmcProofs.BondContainer
 import QmcProofs.RvbBalance
+import QmcProofs.RvbMove
 
 /-!
 # C03 — the RVB cluster update preserves the thermal distribution (partial by nature)
@@ -360,5 +361,82 @@ theorem inverted_ratio_breaks_balance :
     weight exP.flip [[1, 1], [1]] * (acceptInverted exP.flip [2, 1] * redrawProb exP.flip [[0, 2], [0]]) := by
   simp [exP, Problem.flip, Seg.flip, weight, acceptInverted, redrawProb, prodR, Seg.wBef, Seg.wAft, minR]
   norm_num
+
+/-! ## (iii) the move as a relation
+
+`RvbMove E before after R` (QmcProofs/RvbMove.lean): the two operator strings are walked in lock
+step with the running state of `before` and the membership mask of the region `R`;
+* an empty slot stays empty;
+* an operator on a *boundary bond* (exactly one end inside) must be diagonal and is replaced by a
+  diagonal operator on a boundary bond **of positive weight after the flip**, on that bond's two
+  variables, recording their flipped state, constant flag kept (`Rebond`);
+* any other operator keeps variables, bond and constant flag; the inputs of covered legs are
+  flipped with the membership before the slot, the outputs with the membership after it
+  (`xorOp`); membership changes only at the toggle positions, which must carry constant
+  one-variable operators; elsewhere an operator is completely inside or completely outside;
+* the state at `p = 0` is flipped for the variables inside at `p = 0`; membership is periodic. -/
+
+/-- the executable decider is sound for the relation -/
+theorem isRvbMove_sound {E : Ising} {b a : Config} {R : Region} (h : isRvbMove E b a R = true) :
+    RvbMove E b a R := Rvb.isRvbMove_sound h
+
+/-- C06: a consistent periodic world-line configuration stays one -/
+theorem rvbMove_consistent {E : Ising} {b a : Config} {R : Region} (h : RvbMove E b a R)
+    (hb : Consistent b) : Consistent a := h.consistent hb
+
+/-- C07: every stored operator has positive weight afterwards -/
+theorem rvbMove_legal {E : Ising} {b a : Config} {R : Region} (h : RvbMove E b a R) :
+    Legal E a.slots := h.legal
+
+/-- the number of operators and the cutoff are unchanged -/
+theorem rvbMove_count {E : Ising} {b a : Config} {R : Region} (h : RvbMove E b a R) :
+    countOps a.slots = countOps b.slots ∧ a.slots.length = b.slots.length := h.count
+
+/-- the state at `p = 0` is toggled exactly for the variables inside the region at `p = 0` -/
+theorem rvbMove_state {E : Ising} {b a : Config} {R : Region} (h : RvbMove E b a R) :
+    a.state = xorL b.state R.mask0 := h.1
+
+/-- operators outside the region are untouched … -/
+theorem rvbMove_outside_untouched (o : Op) (mask : List Bool) (hi : o.ins.length = o.vars.length)
+    (ho : o.outs.length = o.vars.length) (h : ∀ v ∈ o.vars, getB mask v = false) :
+    xorOp o mask mask false = o := xorOp_outside o mask hi ho h
+
+/-- … operators inside are flipped symmetrically (all inputs and all outputs) -/
+theorem rvbMove_inside_flipped (o : Op) (mask : List Bool) (hi : o.ins.length = o.vars.length)
+    (ho : o.outs.length = o.vars.length) (h : ∀ v ∈ o.vars, getB mask v = true) :
+    xorOp o mask mask false = { o with ins := flipAll o.ins, outs := flipAll o.outs } :=
+  xorOp_inside o mask hi ho h
+
+/-- a rotatable operator is only re-bonded to a boundary bond that is satisfied after the flip -/
+theorem rvbMove_rebond_target {E : Ising} {st mask : List Bool} {o o' : Op} (h : Rebond E st mask o o') :
+    (∃ x ∈ boundary E st mask, x.1 = o'.bond ∧ 0 < x.2.2) ∧ 0 < E.opW o' ∧ o'.tagDiag = true ∧
+      o'.const = o.const := by
+  obtain ⟨b, wb, wa, u, v, j, hm, hb, _, hwa, _⟩ := h.target
+  exact ⟨⟨(b, wb, wa), hm, hb.symm, hwa⟩, h.pos, h.newDiag.2.1, h.newDiag.2.2⟩
+
+/-- non-vacuity: frustrated triangle (J = 1 on all three edges), state `011`; the region is
+variable 1 between the constant operators at slots 0 and 3; the diagonal operator on bond (0,1)
+(satisfied before, unsatisfied after) rotates to bond (1,2) (satisfied after). -/
+def exE : Ising := { nvars := 3, edges := [(0, 1, 1), (1, 2, 1), (0, 2, 1)], gamma := 1, h := 0 }
+def exB : Config :=
+  { state := [false, true, true],
+    slots := [some (Op.diagonal [1] 4 [true] true), some (Op.diagonal [0, 1] 0 [false, true] false),
+              none, some (Op.diagonal [1] 4 [true] true), some (Op.diagonal [2] 5 [true] true), none] }
+def exR : Region := { subvars := [0, 1, 2], mask0 := [false, false, false], toggles := [0, 3] }
+def exA : Config :=
+  { state := [false, true, true],
+    slots := [some (Op.offdiagonal [1] 4 [true] [false] true), some (Op.diagonal [1, 2] 1 [false, true] false),
+              none, some (Op.offdiagonal [1] 4 [false] [true] true), some (Op.diagonal [2] 5 [true] true), none] }
+
+theorem ex_isRvbMove : isRvbMove exE exB exA exR = true := by decide +kernel
+example : Consistent exB := by decide
+example : Consistent exA := rvbMove_consistent (isRvbMove_sound ex_isRvbMove) (by decide)
+example : (extract exE exB exR).1 = { segs := [⟨[]⟩, ⟨[(2, 0), (0, 2)]⟩, ⟨[]⟩], inner := [(1, 1)] } := by
+  decide +kernel
+example : rvbAcceptProb exE exB exR = 1 := by decide +kernel
+/-- the decider rejects the same move with the operator left on the (now unsatisfied) bond -/
+example : isRvbMove exE exB
+    { exA with slots := exA.slots.set 1 (some (Op.diagonal [0, 1] 0 [false, false] false)) } exR = false := by
+  decide +kernel
 
 end Qmc.C03
